@@ -485,25 +485,32 @@ func newEngine(c vCase) *vEngine {
 	e.srv = NewServer(e.xp, wef)
 	if spec := c.get("protocols"); spec != "" && spec != "-" {
 		for _, ps := range strings.Split(spec, ";") {
-			i := strings.IndexByte(ps, ':')
-			name := string(vUnhex(ps[:i]))
-			methods := map[string]ServeHandlerDescription{}
-			if ps[i+1:] != "" {
-				for _, m := range strings.Split(ps[i+1:], "+") {
-					mname := string(vUnhex(m))
-					full := makeMethodName(name, mname)
-					methods[mname] = ServeHandlerDescription{
-						MakeArg: func() interface{} { e.hooks.hit("MakeArg"); return new(interface{}) },
-						Handler: func(ctx context.Context, arg interface{}) (interface{}, error) { return e.handle(ctx, full, arg) },
-					}
-				}
-			}
-			if err := e.srv.Register(Protocol{Name: name, Methods: methods}); err != nil {
-				e.ev.add("register-error/%s", vHexS(name))
-			}
+			e.registerSpec(ps)
 		}
 	}
 	return e
+}
+
+// registerSpec registers one protocol, <name hex>:<method hex>+<method hex>...
+func (e *vEngine) registerSpec(ps string) {
+	i := strings.IndexByte(ps, ':')
+	name := string(vUnhex(ps[:i]))
+	methods := map[string]ServeHandlerDescription{}
+	if ps[i+1:] != "" {
+		for _, m := range strings.Split(ps[i+1:], "+") {
+			mname := string(vUnhex(m))
+			full := makeMethodName(name, mname)
+			methods[mname] = ServeHandlerDescription{
+				MakeArg: func() interface{} { e.hooks.hit("MakeArg"); return new(interface{}) },
+				Handler: func(ctx context.Context, arg interface{}) (interface{}, error) { return e.handle(ctx, full, arg) },
+			}
+		}
+	}
+	if err := e.srv.Register(Protocol{Name: name, Methods: methods}); err != nil {
+		e.ev.add("register-error/%s", vHexS(name))
+	} else {
+		e.ev.add("registered/%s", ps)
+	}
 }
 
 func (e *vEngine) handle(ctx context.Context, method string, arg interface{}) (interface{}, error) {
@@ -813,6 +820,8 @@ func (e *vEngine) op(f []string) {
 			}
 		}
 		e.waitFor("all-handlers-returned", func() bool { return e.ev.count("hret/") >= len(hs) })
+	case "register": // register/<name hex>:<method hex>+...  : a protocol registered while the transport is already running
+		e.registerSpec(f[1])
 	case "close":
 		e.ev.add("close-begin")
 		done := make(chan struct{})
